@@ -251,6 +251,9 @@ def gen_groups_rules(rng, prof, instances):
                     break
             if chosen == 'exit_late':
                 script = {'exit_after': startsecs + rng.uniform(3.0, 40.0), 'exit_code': pick(rng, [0, 0, 1, 2])}
+            elif chosen == 'exit_late_then_ok':
+                script = {'seq': [{'exit_after': startsecs + rng.uniform(3.0, 40.0), 'exit_code': pick(rng, [0, 1, 2])}]
+                          * rng.randint(1, 2) + [{}]}
             elif chosen == 'exit_early':
                 script = {'exit_after': rng.uniform(0.0, max(0.2, startsecs * 0.8)), 'exit_code': pick(rng, [0, 1])}
             elif chosen == 'backoff_then_ok':
